@@ -539,8 +539,6 @@ CORRESPONDENCE_ONLY = [
     "inplace_string::replace family: safety only inside the hypotheses of C04's partial theorems (string_replace*_no_oob_partial; "
     "C04 known finding F-C04-replace-overwrites-only)",
     "mem* functions on overlapping or type-punned storage beyond C18's byte model",
-    "pair/tuple/inplace_function histories (C20 step_refines/run_refines are stated through a refinement relation, not as `= .ok`): only the "
-    "per-operation fn_*_no_error corollaries and C03's lifetime corollaries life_fn_*",
 ]
 UNPROVED_OBSERVED = ["never calls a dynamic allocator (observed: allocation hooks armed during every library call of the stream; compile-time leg)",
                      "reads no uninitialised value (observed: poisoned default-initialised objects, -ftrivial-auto-var-init=pattern, constant "
